@@ -40,7 +40,13 @@ def a_molecules(thorough=True):
             out.append((f'tree{n}', n, t, True))
     for name, (n, e) in CYCLIC.items():
         out.append((name, n, e, False))
+    # legal but degenerate geometry: the three neighbours of atom 0 are exactly collinear, so a single-atom move of
+    # atom 0 has no defined direction (the library proposes a non-finite configuration, which must never be kept)
+    out.append(('star4deg', 4, [(0, 1), (0, 2), (0, 3)], True))
     return out
+
+
+DEG_POS = np.array([[0.3, 0.125, 0.25], [0.0, 0.0, 0.0], [0.25, 0.0, 0.0], [0.5, 0.0, 0.0]])
 
 
 def snapshot(mol):
@@ -83,7 +89,10 @@ class C06(Check):
     def units(self, tier, seed):
         thorough = tier == 'thorough'
         self.bounds = {'horizon': 8 if thorough else 6, 'deviation_bound': 2 if thorough else 1,
-                       'steps_factor': [1, 2] if thorough else [1], 'large': '40 vs 41 atoms, D<=1'}
+                       'steps_factor': [1, 2] if thorough else [1], 'large': '40 vs 41 atoms, D<=1',
+                       'realign_history': 'same Alignment, mobile molecule replaced by a 20 % larger rotated conformation, aligned '
+                                          'again (types default / [2] / [0,1], no restraints)',
+                       'degenerate_mobile_geometry': 'star of 4 atoms whose three neighbours are exactly collinear'}
         u = []
         self.bounds['A_molecules'] = len(a_molecules(thorough))
         for aname, n, edges, acyc in a_molecules(thorough):
@@ -116,6 +125,8 @@ class C06(Check):
                     for ign in (True, False):
                         for sf in self.bounds['steps_factor']:
                             yield dict(unit, types=types, restr=rk, ign=ign, sf=sf, H=H, D=D)
+                    if rk == 'none' and types in (None, [2], [0, 1]):
+                        yield dict(unit, types=types, restr=rk, ign=True, sf=1, H=H, D=D, reset=1)
         elif unit['k'] == 'large':
             for types in (None, [0, 1]):
                 for ign in (True, False):
@@ -136,6 +147,8 @@ class C06(Check):
         if case['k'] in ('small', 'seeds'):
             n, edges, acyc = case['n'], [tuple(e) for e in case['edges']], case['acyc']
             pa = generic_points(n, seed, scale=0.35, tag=10 + n) + np.array([0.3, -0.2, 0.1])
+            if case.get('aname') == 'star4deg':
+                pa = DEG_POS.copy()
             A = molecule('MOLA', [(f'C{i + 1}', 'MOLA', 1) for i in range(n)], edges, pa)
             names, bedges = BMOLS[case['b']]
             pb = generic_points(len(names), seed, scale=0.4, tag=30 + len(names))
@@ -176,6 +189,8 @@ class C06(Check):
         mob0 = (end_in if start_is_larger else start_in).atoms_positions
         bond0 = {e: float(np.linalg.norm(mob0[e[0]] - mob0[e[1]])) for e in map(tuple, mob_edges)}
         dev_at = set(case['dev_at']) if case.get('dev_at') else None
+        degenerate = case.get('aname') == 'star4deg'
+        rot_new = np.array([[0.0, -1.0, 0.0], [1.0, 0.0, 0.0], [0.0, 0.0, 1.0]])
 
         def shape_violation(conf):
             if not np.all(np.isfinite(conf)):
@@ -190,6 +205,7 @@ class C06(Check):
 
         def one(ctx, rng_seed=None):
             proposals = []
+            sink = [proposals]
             real_chi2 = be.Chi2Calculator
 
             class RecChi2:
@@ -197,7 +213,7 @@ class C06(Check):
                     s._r = real_chi2(m1, m2, restr)
 
                 def __call__(s, m2):
-                    proposals.append(np.array(m2, float))
+                    sink[0].append(np.array(m2, float))
                     return s._r(m2)
             ali = Alignment(start_in, end_in)
             events = []
@@ -223,9 +239,31 @@ class C06(Check):
                     cut = True
                 except Exception as exc:  # noqa
                     err = repr(exc)
-            return ali, proposals, events, cut, err
+                ph2 = None
+                if case.get('reset') and not cut and err is None and rng_seed is None:
+                    # history on the SAME Alignment: its mobile molecule is replaced by another conformation of the
+                    # same species (20 % larger, rotated) and the alignment is run again
+                    src = end_in if start_is_larger else start_in
+                    newmob = src.copy()
+                    newmob.atoms_positions = (mob0 - mob0.mean(axis=0)) @ rot_new.T * 1.2 + np.array([0.7, 0.1, -0.4])
+                    np1 = newmob.atoms_positions
+                    ph2 = {'final1': (ali.start.atoms_positions.copy(), ali.end.atoms_positions.copy()),
+                           'newmob': newmob, 'snap_new': snapshot(newmob), 'proposals': [], 'cut': False, 'err': None,
+                           'big_before': (ali.start if start_is_larger else ali.end).atoms_positions.copy(),
+                           'bond1': {e: float(np.linalg.norm(np1[e[0]] - np1[e[1]])) for e in map(tuple, mob_edges)}}
+                    sink[0] = ph2['proposals']
+                    script.iteration = -1
+                    try:
+                        setattr(ali, 'end' if start_is_larger else 'start', newmob)
+                        with owned_random(script):
+                            ali.align_molecules(restr, types, case['ign'])
+                    except Horizon:
+                        ph2['cut'] = True
+                    except Exception as exc:  # noqa
+                        ph2['err'] = repr(exc)
+            return ali, proposals, events, cut, err, ph2
 
-        def judge(desc, ali, proposals, events, cut, err):
+        def judge(desc, ali, proposals, events, cut, err, ph2=None):
             V = []
             if err:
                 V.append(('align/unexpected-exception', err))
@@ -238,9 +276,9 @@ class C06(Check):
             for which, out, snap in (('start', s_out, snap_s), ('end', e_out, snap_e)):
                 if [a.name for a in out] != snap[5] or list(out.resnames) != snap[4] or len(out) != snap[6]:
                     V.append((f'align/atom-order-or-names-changed/{which}', ''))
-            large_out, large_in = (s_out, snap_s[0]) if start_is_larger else (e_out, snap_e[0])
-            mob_out = e_out if start_is_larger else s_out
-            lp = large_out.atoms_positions
+            sp1, ep1 = ph2['final1'] if ph2 is not None else (s_out.atoms_positions, e_out.atoms_positions)
+            lp, large_in = (sp1, snap_s[0]) if start_is_larger else (ep1, snap_e[0])
+            mob_final = ep1 if start_is_larger else sp1
             if not np.all(np.isfinite(lp)):
                 V.append(('align/non-finite/larger', ''))
             elif start_is_larger:
@@ -250,18 +288,56 @@ class C06(Check):
             elif not np.array_equal(lp, large_in):
                 V.append(('align/larger-end-molecule-touched', ''))
             if not cut:
-                sv = shape_violation(mob_out.atoms_positions)
+                sv = shape_violation(mob_final)
                 if sv:
                     V.append((f'align/final/{sv[0]}', sv[1]))
             for p in proposals:
+                if degenerate and not np.all(np.isfinite(p)):
+                    continue          # an undefined move direction may be PROPOSED; it must not be kept (final check)
                 sv = shape_violation(p)
                 if sv:
                     V.append((f'align/proposal/{sv[0]}', sv[1]))
                     break
+            if ph2 is not None:
+                V += judge_phase2(ali, ph2)
+            return V
+
+        def judge_phase2(ali, ph2):
+            """Second alignment on the same Alignment after its mobile molecule was replaced by another conformation."""
+            V = []
+            if ph2['err']:
+                return [('realign/unexpected-exception', ph2['err'])]
+            for which, snap, mol in (('start', snap_s, start_in), ('end', snap_e, end_in),
+                                     ('replacement', ph2['snap_new'], ph2['newmob'])):
+                diff = same_snapshot(snap, snapshot(mol))
+                if diff:
+                    V.append((f'realign/caller-molecule-modified/{which}', diff))
+            big = (ali.start if start_is_larger else ali.end).atoms_positions
+            d = big - ph2['big_before']
+            if start_is_larger:
+                if not np.all(np.isfinite(big)) or np.abs(d - d[0]).max() > 1e-12:
+                    V.append(('realign/larger-molecule-not-purely-translated', ''))
+            elif not np.array_equal(big, ph2['big_before']):
+                V.append(('realign/larger-end-molecule-touched', ''))
+            confs = list(ph2['proposals'])
+            if not ph2['cut']:
+                confs.append((ali.end if start_is_larger else ali.start).atoms_positions)
+            for ci, conf in enumerate(confs):
+                if not np.all(np.isfinite(conf)):
+                    if degenerate and ci < len(ph2['proposals']):
+                        continue      # proposed, not kept
+                    V.append(('realign/non-finite', ''))
+                    break
+                if mob_acyclic:
+                    bad = [(e, float(np.linalg.norm(conf[e[0]] - conf[e[1]])), ln) for e, ln in ph2['bond1'].items()
+                           if abs(np.linalg.norm(conf[e[0]] - conf[e[1]]) - ln) > 1e-9]
+                    if bad:
+                        V.append(('realign/bond-length-not-that-of-the-new-conformation', str(bad[0])))
+                        break
             return V
 
         def on_exec(ctx, obs, cut_):
-            ali, proposals, events, cut, err = obs
+            ali, proposals, events, cut, err, ph2 = obs
             desc = dict(case, choices=list(ctx.trace))
             iters = sum(1 for e in events if e[0] == 'iter')
             R.traces += 1
@@ -271,9 +347,12 @@ class C06(Check):
             R.add('proposed_configurations_checked', len(proposals))
             R.case(desc, nontrivial=iters > 0,
                    outcome=('cut' if cut else 'done') + f'/it{min(iters, 9)}',
-                   cls=f"{case['k']}/{'startL' if start_is_larger else 'endL'}/types{case['types']}/{case['restr']}/ign{int(case['ign'])}")
-            for sig, det in judge(desc, ali, proposals, events, cut, err):
+                   cls=f"{case['k']}{'/realign' if case.get('reset') else ''}/{'startL' if start_is_larger else 'endL'}/types{case['types']}/{case['restr']}/ign{int(case['ign'])}")
+            for sig, det in judge(desc, ali, proposals, events, cut, err, ph2):
                 R.violation(sig, desc, det)
+            if ph2 is not None:
+                R.add('realignments_after_replacing_the_mobile_molecule', 1)
+                R.states += len(ph2['proposals'])
             # bit-identical replay of the same choice vector (every 5th execution; a replayed
             # counterexample is repeated several times because its failure is a coin toss by nature)
             if not cut and (R.traces % 5 == 0 or 'choices' in case):
